@@ -32,6 +32,9 @@ def respond (line : String) : String :=
   | none =>
   match respondBuild ws with
   | some r => r
+  | none =>
+  match respondBuildRt ws with
+  | some r => r
   | none => "bad-request"
 
 partial def loop (h : IO.FS.Stream) (out : IO.FS.Stream) : IO Unit := do
